@@ -134,6 +134,25 @@ func (p *Prog) writersBetween(e CondEdge, target ssa.Instruction, isWriter func(
 	return bad
 }
 
+// resolvePrioLight: the roles the list-membership rules (D2, P2) need - the routine, the
+// scheduling roles and the checking wrapper - without the sending / accounting roles.
+func resolvePrioLight(p *Prog) (*prioRoles, error) {
+	sr, err := resolveSchedRoles(p)
+	if err != nil {
+		return nil, err
+	}
+	pr := &prioRoles{p: p, d: sr.d, rt: sr.rt, sr: sr, v1: p.Name == "v1", key: p.Name + ":priority.Discipline", sendPrioIdx: -1}
+	for _, fn := range pr.rt.Funcs {
+		if isCheckedDivision(fn) {
+			pr.safeDivideFn = fn
+		}
+	}
+	if pr.safeDivideFn == nil {
+		return nil, fmt.Errorf("UNRESOLVED-ANCHOR: %s: cannot find the checking wrapper of the divider", pr.key)
+	}
+	return pr, nil
+}
+
 func resolvePrio(p *Prog) (*prioRoles, error) {
 	sr, err := resolveSchedRoles(p)
 	if err != nil {
